@@ -59,6 +59,14 @@ def _resolve(a, x, outs):
         return E.getitem(o.value, a[2]) if isinstance(o.value, E.SYM_TYPES) else o.value[a[2]]
     if isinstance(a, tuple) and a and a[0] == 'tail':
         return x[2:]
+    if isinstance(a, tuple) and a and a[0] == 'cat':
+        parts = [E.force(_resolve(p, x, outs)) for p in a[1:]]
+        out = []
+        for p in parts:
+            if not isinstance(p, (str, E.SStr)):
+                raise LookupError
+            out.extend(E.SStr.of(p).chars)
+        return E.mk(out)
     if isinstance(a, tuple) and a and a[0] == 'slice':
         o = outs[a[1]]
         if o.kind != 'ret':
@@ -107,19 +115,23 @@ def steps_for(calls, xs):
                 return ('$item', a[1], a[2])
             if isinstance(a, tuple) and a and a[0] == 'tail':
                 return xs[2:]
+            if isinstance(a, tuple) and a and a[0] == 'cat':
+                return ('$cat', [enc(p) for p in a[1:]])
             if isinstance(a, tuple) and a and a[0] == 'slice':
                 return ('$slice', a[1], a[2], a[3])
             return a
-        s = step(c.mod, c.func, *[None] * 0)
         from symx.replay import enc_arg
-        args = []
-        for a in c.args:
-            e = enc(a)
-            args.append({'$item': [e[1], e[2]]} if isinstance(e, tuple) and e and e[0] == '$item' else ({'$slice': [e[1], e[2], e[3]]} if isinstance(e, tuple) and e and e[0] == '$slice' else enc_arg(e)))
-        kwargs = {}
-        for k, a in c.kwargs.items():
-            e = enc(a)
-            kwargs[k] = {'$item': [e[1], e[2]]} if isinstance(e, tuple) and e and e[0] == '$item' else enc_arg(e)
+
+        def enc2(e):
+            if isinstance(e, tuple) and e and e[0] == '$item':
+                return {'$item': [e[1], e[2]]}
+            if isinstance(e, tuple) and e and e[0] == '$slice':
+                return {'$slice': [e[1], e[2], e[3]]}
+            if isinstance(e, tuple) and e and e[0] == '$cat':
+                return {'$cat': [enc2(p) for p in e[1]]}
+            return enc_arg(e)
+        args = [enc2(enc(a)) for a in c.args]
+        kwargs = {k: enc2(enc(a)) for k, a in c.kwargs.items()}
         out.append({'mod': c.mod, 'func': c.func, 'args': args, 'kwargs': kwargs, 'requires': list(c.requires)})
     return out
 
